@@ -173,7 +173,7 @@ mod verif_c14 {
   #[kani::stub(crate::devices::video::VideoState::cache_next_tile_row, noop_tile)]
   #[kani::stub(crate::devices::video::VideoState::cache_next_window_tile_row, noop_tile)]
   #[kani::stub(crate::devices::video::lcd::LCD::get_writing_buffer_line, stub_line)]
-  fn c14_batch_into_vblank() { batch(8, true, 143 * 456 + 420, 144 * 456); }
+  fn c14_batch_into_vblank() { batch(6, true, 143 * 456 + 440, 144 * 456); }
   #[cfg(verif_thorough)]
   #[kani::proof]
   #[kani::unwind(12)]
